@@ -492,3 +492,4 @@ PROP = Prop(
           Sub('matrices', body_matrices, strategy=case_matrices, quick=800, thorough=10000),
           Sub('pou', body_pou, strategy=case_pou, quick=800, thorough=10000)],
     design_ref='DESIGN.md section 6, C02')
+PROP.rule += ('. Added in round 2 (sub-check named_refined): integrals over NAMED cell / boundary-facet / interior-facet sets before and after refined(k), k in {1, 2} -- the name must keep meaning the same point set; non-trivial there as for functionals.')
